@@ -1261,6 +1261,71 @@ func runDecodeHints() {
 		func(i int) string { return fmt.Sprint(cases[i]) },
 		func(l *mc.Local, i int) { decodeHintOne(l, cases[i]) })
 	chk.Sample("decode-hint", cases[1])
+
+	// spellings in another LETTER CASE: the registry lookup is case-sensitive, the IANA index is not.
+	// A lower- or upper-cased registered name that is not itself registered is resolved through the
+	// IANA index (x/text): "gbk" is x/text's GBK while the registered alias "GBK" is GB18030. What a
+	// spelling means must not depend on which other spelling was used earlier in the process.
+	var vcases []hintCase
+	gb4 := []byte{'a', 0x95, 0x32, 0x82, 0x36, 0xA8, 0xBF, 'z'} // U+20000 is a four-byte GB18030 sequence
+	seenV := map[string]bool{}
+	for _, d := range expectedSets {
+		for _, n := range d.names {
+			for _, v := range []string{strings.ToLower(n), strings.ToUpper(n), strings.Title(strings.ToLower(n))} {
+				if defByName[v] != nil || seenV[v] {
+					continue
+				}
+				seenV[v] = true
+				for _, p := range [][]byte{universal, gb4, {0x8A, 0xBF, 0x8E, 0x9A}} {
+					vcases = append(vcases, hintCase{Sub: "decode-hint-case", Name: v, PayloadHex: hex.EncodeToString(p)})
+				}
+			}
+		}
+	}
+	// the exact spellings again with the GB18030 payload (interleaved with the variants above)
+	for _, d := range expectedSets {
+		for _, n := range d.names {
+			vcases = append(vcases, hintCase{Sub: "decode-hint", Name: n, PayloadHex: hex.EncodeToString(gb4)})
+		}
+	}
+	chk.Range(fmt.Sprintf("(5c) decode-side CHARACTER_SET hint spelled in another letter case (lower, upper, title) than registered: resolved through the IANA index like any unregistered name (or an error), independently of the spellings used before; and every registered spelling on a four-byte GB18030 payload [%d symbols]", len(vcases)), len(vcases),
+		func(i int) string { return fmt.Sprint(vcases[i]) },
+		func(l *mc.Local, i int) {
+			if vcases[i].Sub == "decode-hint" {
+				decodeHintOne(l, vcases[i])
+			} else {
+				decodeHintCaseOne(l, vcases[i])
+			}
+		})
+}
+
+func decodeHintCaseOne(l *mc.Local, c hintCase) {
+	p, _ := hex.DecodeString(c.PayloadHex)
+	m, err := buildUndesignated(p)
+	if err != nil {
+		chk.Violation("C15/harness/build", err.Error(), c)
+		return
+	}
+	r := libDecode(m, map[gozxing.DecodeHintType]interface{}{gozxing.DecodeHintType_CHARACTER_SET: c.Name})
+	l.Count("evaluations", 1)
+	if r.pm != "" {
+		chk.Violation("C15/panic/"+r.site+"/decode-hint", fmt.Sprintf("%+v: panic %s", c, r.pm), c)
+		return
+	}
+	enc, ierr := ianaindex.IANA.Encoding(c.Name)
+	if ierr != nil || enc == nil {
+		l.Distinct("outcomes", "dhc/unresolvable")
+		if r.err == nil {
+			l.Count("decode hints that no index resolves and the library ignores (not judged)", 1)
+		}
+		return
+	}
+	want := decodeWith(enc, p)
+	l.Distinct("outcomes", "dhc/resolved")
+	l.Distinct("nontrivial", fmt.Sprint("dhc/", c))
+	if r.err != nil || r.text != want {
+		chk.Violation("C15/decode-hint/letter-case", fmt.Sprintf("undesignated bytes %X decoded with CHARACTER_SET hint %q (not a registered spelling; the IANA index resolves it to %v): %+q err %v, expected %+q", p, c.Name, enc, r.text, r.err, want), c)
+	}
 }
 
 // runDesignatedWithHints (5b): an ECI designator fixes the interpretation of the bytes that follow it,
@@ -1478,6 +1543,10 @@ func replay() {
 		default:
 			roundTrip(l, d, c.Name, string(b), c.Class, "C15/roundtrip/"+keyPart(d.key())+"/"+c.Class)
 		}
+	case "decode-hint-case":
+		var c hintCase
+		mc.LoadReplay(chk.ReplayFile(), &c)
+		decodeHintCaseOne(l, c)
 	case "decode-hint":
 		var c hintCase
 		mc.LoadReplay(chk.ReplayFile(), &c)
